@@ -348,8 +348,8 @@ def realdirpath_rules(ctx, rid):
         ne = any(q.endswith("::ne") for q in callee_paths(t))
         nf.append((sw, f_t if ne else t_t))
     # .. or through a local predicate that makes that comparison (`is_not_there(&e)`: NotFound or ENOTDIR)
-    preds = sorted(k for k, b_ in prog.bodies.items() if k.startswith("state::") and b_.locals and b_.locals[0] == "bool" and
-                   any(s_["s"] == "assign" and s_["rv"]["k"] == "agg" and s_["rv"].get("variant") == "NotFound" for blk_ in b_.blocks for s_ in blk_["stmts"]))
+    from rules.extra import tests_notfound
+    preds = sorted(k for k, b_ in prog.bodies.items() if k.startswith("state::") and b_.locals and b_.locals[0] == "bool" and tests_notfound(b_))
     if preds:
         for (sw, t_t, f_t, cbb) in rba.switches_on_call("|".join(re.escape(k) for k in preds)):
             nf.append((sw, t_t))
